@@ -104,7 +104,9 @@ class ObsMixin(object):
         return nn
 
     def preempt(self, individual_to_preempt, next_individual, *args, **kwargs):
-        insvc = [(i.id_number, i.priority_class, i.service_start_date) for i in in_service(self)]
+        # candidates for pre-emption: customers in live service on servers of the current shift (a server finishing its last customer after
+        # its shift has ended is not interrupted)
+        insvc = [(i.id_number, i.priority_class, i.service_start_date) for i in in_service(self) if not getattr(i.server, "offduty", False)]
         was_blocked = bool(individual_to_preempt.is_blocked)
         srv = individual_to_preempt.server
         super().preempt(individual_to_preempt, next_individual, *args, **kwargs)
